@@ -3,6 +3,6 @@ CONSTANTS
   IterUniverse <- U_tiny
   ExportUniverse <- U_thorough
   MaxSize = 100
-  NumValid = 8
+  NumValid = 6
   NumBase = 2
-  NumCorr = 40
+  NumCorr = 32
